@@ -319,3 +319,76 @@ Theorem sum_free_fixed :
   sum_free repaired wit_f11i_sum <> [].
 Proof. exact sum_free_fixed_l. Qed.
 Print Assumptions sum_free_fixed.
+
+(* 16. canonical forms of the parameters (Param/ExprCanon.v, Param/ParamCanon.v).
+   poly_canon: monomials with strictly increasing symbols and exponents >= 1, non-zero
+   coefficients, terms strictly sorted -- the form sympy.Poly(...).terms() is compared with *)
+Require Import DV.Param.ExprCanon DV.Param.ParamCanon DV.Param.ParamProg.
+
+(*     every operation of the expression model returns a canonical polynomial *)
+Theorem poly_operations_canonical :
+  (forall c, poly_canon (poly_const c) = true) /\
+  (forall x, poly_canon (poly_var x) = true) /\
+  (forall m c p, mono_canon m = true -> poly_canon p = true -> poly_canon (poly_add_term m c p) = true) /\
+  (forall p q, poly_canon p = true -> poly_canon q = true -> poly_canon (poly_add p q) = true) /\
+  (forall p q, poly_canon q = true -> poly_canon (poly_mul p q) = true) /\
+  (forall c q, poly_canon q = true -> poly_canon (poly_scale_mono [] c q) = true) /\
+  (forall p n, poly_canon (poly_pow p n) = true) /\
+  (forall p, poly_canon (poly_norm p) = true) /\
+  (forall s p, poly_canon (subs_sim s p) = true) /\
+  (forall x v p, poly_canon (subs_one x v p) = true) /\
+  (forall s p, poly_canon p = true -> poly_canon (subs_seq s p) = true).
+Proof. exact poly_ops_canon. Qed.
+Print Assumptions poly_operations_canonical.
+
+(*     the identity theorem over Q: a canonical polynomial other than 0 has a point where it does not vanish *)
+Theorem canonical_nonzero_point : forall p, poly_canon p = true -> p <> [] ->
+  exists rho, eval_poly rho p <> Q2Qc 0.
+Proof. exact poly_canon_nonzero_point. Qed.
+Print Assumptions canonical_nonzero_point.
+
+(*     canonical forms are unique: equal values under every environment, equal lists of terms *)
+Theorem canonical_form_unique : forall p q, poly_canon p = true -> poly_canon q = true ->
+  (forall rho, eval_poly rho p = eval_poly rho q) -> p = q.
+Proof. exact poly_canon_unique. Qed.
+Print Assumptions canonical_form_unique.
+
+(*     free_symbols of one expression is exact: a symbol is reported iff two environments that
+       differ only at that symbol give two values *)
+Theorem free_symbols_expr_exact : forall x p, poly_canon p = true ->
+  (In x (fs p) <-> exists rho a, eval_poly (upd rho x a) p <> eval_poly rho p).
+Proof. exact fs_exact_point. Qed.
+Print Assumptions free_symbols_expr_exact.
+
+(*     what arrives over the wire is canonical; subs and lambdify keep it so *)
+Theorem decoded_boxes_canonical : forall s bs, dec_boxes s = Ok bs -> forallb box_canon bs = true.
+Proof. exact dec_boxes_canon. Qed.
+Print Assumptions decoded_boxes_canonical.
+
+Theorem subs_preserves_canonical : forall fx cls f d d', wf d = true -> dcanon d = true ->
+  dsubs fx cls f d = XOk d' -> dcanon d' = true.
+Proof. exact dsubs_canon. Qed.
+Print Assumptions subs_preserves_canonical.
+
+Theorem lambdify_preserves_canonical : forall fx cls syms vals d d', wf d = true -> dcanon d = true ->
+  dlambdify fx cls syms vals d = XOk d' -> dcanon d' = true.
+Proof. exact dlambdify_canon. Qed.
+Print Assumptions lambdify_preserves_canonical.
+
+(* 17. lambdify of syms applied to vals and subs of zip(syms, vals) are the SAME diagram (Leibniz
+   equality of the canonical parameters; `erase` forgets that lambdify returns Python numbers)
+   when both succeed, the values are closed and the parameters of d are canonical *)
+Theorem lambdify_eq_subs_syntactic : forall fx cls syms vals d d1 d2,
+  dwf d = true -> dcanon d = true -> length syms = length vals ->
+  Forall (fun v => poly_vars (epoly v) = []) vals ->
+  dlambdify fx cls syms vals d = XOk d1 ->
+  dsubs fx cls (SList (combine syms vals)) d = XOk d2 ->
+  erase d1 = erase d2.
+Proof. exact lambdify_eq_subs_syntactic_l. Qed.
+Print Assumptions lambdify_eq_subs_syntactic.
+
+(*     the hypothesis `dcanon d` is needed: without it (ParamLemmas.lambdify_eq_subs_syntactic_stmt)
+       the statement is false of the model -- lambdify()() re-normalises a parameter 0*1 that subs([]) returns as it is *)
+Theorem lambdify_eq_subs_syntactic_needs_canonical : ~ lambdify_eq_subs_syntactic_stmt.
+Proof. exact lambdify_eq_subs_syntactic_stmt_false. Qed.
+Print Assumptions lambdify_eq_subs_syntactic_needs_canonical.
